@@ -6,6 +6,9 @@ TECH = "explicit TLA+ spec (Abs guards + Impl model) model-checked with TLC; tra
 NOTE = ("Trusted: TLC, Json/IOUtils modules, the harness's lexers / slice comparisons and concretisers (round-trip self-checked); "
         "exhaustive only within the stated small scopes and sweeps, seeded sampling beyond; nothing here is a proof about the Rust code.")
 T = {
+"C02": ("TLC model-checks the line-atomic head writer (heads of <=3 header lines with lengths 3/4/7, every sequence of buffer sizes 0..12 and large, two calls after completion): the greedy code-shaped writer only takes Abs steps, emits whole-line prefixes, nothing after completion, and the pinned 'terminator on head rewrite' defect is refuted; on the real code generated requests (9 methods, 1.0/1.1, up to 60+58 headers, obs-text/empty values, explicit/missing Host, CL/TE, despite-method, redirect depth 0..3, Flow and both Call constructors) are written through 5-8 buffer schedules plus calls after completion; each write is validated (whole lines, overflow iff, idempotent) and the lexed head is compared with the request by TLC (request line, added-then-original headers, one Host, exactly the framing header the body then uses).", "DESIGN.md 3.2 SendHead, 6 (C02)"),
+"C16": ("The head guard of the SendHead specification requires the caller-added headers to be the first fields of the lexed head, in order, once automatic Host/framing headers are removed; flows at redirect depth 0..3 under both auth policies, whose original request carries cookie/authorization/content-length, get 0..58 added headers drawn from cookie, authorization, content-length, host, connection, x-* and are serialised through buffer schedules; TLC validates every head.", "DESIGN.md 3.2 SendHead, 6 (C16)"),
+"C17": ("Validate(rq) is a TLA+ operator written from the property's classes; the enumeration versions x methods x Host x Content-Length x Transfer-Encoding x despite x {Flow, Call::without_body, Call::with_body} (thorough: all ~58k cells, quick: a seeded stratified ninth) is run on the real code with three writes each; TLC checks refused <=> Validate = reject on every write, never ready, and accepted otherwise (non-textual Host: either).", "DESIGN.md 3.2 SendHead, 6 (C17)"),
 "C03": ("TLC shows (small scope, all sequences of <=4-5 writes) that any writer conforming to the per-call Abs guards emits the terminator at most once, is finished iff it was emitted, and nothing after the end; that the implementation-shaped chunk writer refines Abs (and that the three pinned defects do not); every chunked write the driver makes on the real code (buffers 0..40, buffers leaving 0..12 bytes after a chunk, +-12 around 10248k, repeated/interleaved finishing writes, random sequences; Flow and Call API) is validated against the same guards.", "DESIGN.md 3.2, 6 (C03)"),
 "C04": ("TLC shows on N<=6, all interleavings of write/direct-write/empty calls, that the Abs guards imply accounted+left=N, never beyond N, finished iff N accounted and end signalled; every sized write / direct write on the real code (N in 0..300 + boundaries quick, 0..=70000 thorough, u64 extremes via 24-bit limbs, overshoots with every buffer class) is validated as exact min-of-three with side-effect-free refusals.", "DESIGN.md 3.2, 6 (C04)"),
 "C05": ("TLC checks every prefix of every small head layout (0..3 fields, Location at any position, statuses 200/302/304, limits 0/1/4) against the Abs offer guard for the code-shaped parse pipeline: it holds with the known deviation PartialRedirect listed, is refuted without it (KF1) and with the repaired short-prefix defect re-enabled; on the real code every prefix 0..|H|+3 of generated well-formed heads (0..130 fields, OWS, empty and obs-text values, repeated names, long reasons, every 3xx) is offered to fresh Flow / Call receivers and validated: need-more-data with 0 consumed, exact head on completion, >128 fields rejected. Events matching the listed deviation are reported as KNOWN-FINDING KF1, any other early response is a violation.", "DESIGN.md 3.2 HeadPrefix, 6 (C05), 7.2"),
